@@ -25,8 +25,62 @@ def qiListStr (l : List QI) : String := ";".intercalate (l.map QI.toStr)
 def getQ (a : Array QI) (i : Nat) : QI := a.getD i 0
 def getG (a : Array GInt) (i : Nat) : GInt := a.getD i 0
 
+def parseFloats? (s : String) : Option (List Float) :=
+  if s = "-" then some [] else
+  (s.splitOn ";").mapM fun t => do
+    let b ← t.toNat?
+    if b ≥ 2^64 then none else pure (Float.ofBits b.toUInt64)
+
+def pairs : List Float → List (Float × Float)
+  | a :: b :: rest => (a, b) :: pairs rest
+  | _ => []
+
+def fbits (x : Float) : String := toString x.toBits
+
 def handle (args : List String) : String :=
   match args with
+  | ["wread", ev] => Id.run do
+      let some l := parseFloats? ev | return "bad-op"
+      if l.length ≠ 4 then return "bad-op"
+      return fbits (woottersReadout l)
+  | ["eofpure", eps, ev] => Id.run do
+      let some e := parseFloats? eps | return "bad-op"
+      let some l := parseFloats? ev | return "bad-op"
+      if e.length ≠ 1 then return "bad-op"
+      return fbits (eofPureFromWeights (e.getD 0 0) l)
+  | ["loss-eof", eps, probs, evs] => Id.run do
+      -- `evs`: all eigenvalues, `k` per member, members in order
+      let some e := parseFloats? eps | return "bad-op"
+      let some ps := parseFloats? probs | return "bad-op"
+      let some es := parseFloats? evs | return "bad-op"
+      if e.length ≠ 1 || ps.length = 0 || es.length % ps.length ≠ 0 then return "bad-op"
+      let k := es.length / ps.length
+      let members := (List.range ps.length).map fun i => (ps.getD i 0, (es.drop (i * k)).take k)
+      return fbits (eofLoss (e.getD 0 0) members)
+  | ["loss-conc", eps, pp] => Id.run do
+      let some e := parseFloats? eps | return "bad-op"
+      let some l := parseFloats? pp | return "bad-op"
+      if e.length ≠ 1 || l.length % 2 ≠ 0 then return "bad-op"
+      return fbits (concLoss (e.getD 0 0) (pairs l))
+  | ["loss-linent", eps, sign, pp] => Id.run do
+      let some e := parseFloats? eps | return "bad-op"
+      let some sg := parseFloats? sign | return "bad-op"
+      let some l := parseFloats? pp | return "bad-op"
+      if e.length ≠ 1 || sg.length ≠ 1 || l.length % 2 ≠ 0 then return "bad-op"
+      return fbits (linentLoss (e.getD 0 0) (sg.getD 0 0) (pairs l))
+  | ["loss-gme", ov] => Id.run do
+      let some l := parseFloats? ov | return "bad-op"
+      if l.length % 2 ≠ 0 then return "bad-op"
+      return fbits (gmeLoss (pairs l))
+  | ["belldiag", ps] => Id.run do
+      -- integer weights (numerators over a common denominator): entries of 2·Σ p_i Bell_i Bell_iᴴ and of its spin flip
+      let some l := parseIntList? ps | return "bad-op"
+      if l.length ≠ 4 then return "bad-op"
+      let p : Nat → GInt := fun i => GInt.ofInt (l.getD i 0)
+      let m := (List.range 4).flatMap fun i => (List.range 4).map fun j => bellDiag2 p i j
+      let f := (List.range 4).flatMap fun i => (List.range 4).map fun j => spinFlip (bellDiag2 p) i j
+      let t := (List.range 4).flatMap fun i => (List.range 4).map fun j => ptB 2 2 (bellDiag2 p) i j
+      return gintListStr m ++ "|" ++ gintListStr f ++ "|" ++ gintListStr t
   | ["eof", bits] => Id.run do
       let some b := bits.toNat? | return "bad-op"
       if b ≥ 2^64 then return "bad-op"
